@@ -33,19 +33,19 @@ type RuleInfo struct {
 }
 
 type Report struct {
-	Prop    string
-	Tier    string
-	Level   string
-	Obs     []*Obligation
-	Rules   []*RuleInfo
-	ruleIdx map[string]*RuleInfo
-	Expl    string
-	NotDec  string
-	Assume  []string
-	Extra   map[string]interface{}
-	start   time.Time
-	Analysed map[string]bool // functions analysed
-	failing  map[string]bool
+	Prop      string
+	Tier      string
+	Level     string
+	Obs       []*Obligation
+	Rules     []*RuleInfo
+	ruleIdx   map[string]*RuleInfo
+	Expl      string
+	NotDec    string
+	Assume    []string
+	Extra     map[string]interface{}
+	start     time.Time
+	Analysed  map[string]bool // functions analysed
+	failing   map[string]bool
 	PreFinish func()
 }
 
